@@ -40,10 +40,28 @@ func Load() *File {
 	f := &File{root: Root()}
 	b, err := os.ReadFile(filepath.Join(f.root, "known_findings.json"))
 	if err != nil {
+		f.loadDir()
 		return f
 	}
 	_ = json.Unmarshal(b, f)
+	f.loadDir()
 	return f
+}
+
+// loadDir also reads findings.d/*.json (proposals written while a check is being developed;
+// merged into known_findings.json before they are committed).
+func (f *File) loadDir() {
+	names, _ := filepath.Glob(filepath.Join(f.root, "findings.d", "*.json"))
+	for _, n := range names {
+		b, err := os.ReadFile(n)
+		if err != nil {
+			continue
+		}
+		var g File
+		if json.Unmarshal(b, &g) == nil {
+			f.Findings = append(f.Findings, g.Findings...)
+		}
+	}
 }
 
 // Open reports whether finding id is listed as open.
